@@ -103,7 +103,9 @@ REDIRECTS += ["http://a.com/%49ndex.html", "http://a.com/x/%44efault.aspx", "htt
 # inside a cache path
 REDIRECTS += ["http://a.com/?u\x01rl=http%3A%2F%2Fb.c%2F", "http://a.com/?x=1&amp;url=http%3A%2F%2Fb.c%2F", "https://amp-a-com.cdn.ampproject.org/v/s/../s/a.com/y",
               "https://amp-a-com.cdn.ampproject.org/v/./s/a.com/y", "https://amp-a-com.cdn.ampproject.org/v/s/a.com/x/../y", "\x85http://a.com/p?u=/x",
-              "https://amp-a-com.cdn.ampproject.org/v/s/a.com:8080/y"]
+              "https://amp-a-com.cdn.ampproject.org/v/s/a.com:8080/y",
+              # an escaped letter inside the '&amp;' entity, a cache marker spelled with an escaped dot inside the fragment
+              "http://a.com/?a=1&%61mp;b=2", "http://a.com/?a=1&AMP%3Bb=2", "a.com/#x%2Eampproject.org/c/b.com/y", "http://a.com/p#bc%2Emarfeel.com/b.com/y"]
 # pairs that are easy to confuse: when they have the same canonical / normalized form they must agree on the next scheme too
 PAIRS = [("http://a.com/?%75rl=http://b.com/x", "http://a.com/?u\x01rl=http://b.com/x"), ("http://a.com/%49ndex.html", "http://a.com/%4\x019ndex.html"),
          ("http://a.com/x?Q=http://b.com", "http://b.com"), ("http://a.com/x?q=http://b.com", "http://a.com/x?Q=http://b.com"), ("a.com?ref=%46b", "a.com?ref=Fb"),
